@@ -173,6 +173,11 @@ claim(
     "DESIGN.md §7 C01",
 )
 
+TECH_SUFFIX = (
+    "; failing-input search and model validation by direct oracles on the real code (independent references in harness/agents/cNN_*.py: "
+    "entry points, call histories with shared objects, edge values, scale thresholds, unusual identifiers, text noise)"
+)
+
 ALL = [f"C{n:02d}" for n in range(1, 21)]
 READY = {"C01", "C02", "C03", "C04", "C05", "C06", "C07", "C10", "C16", "C08", "C09", "C11", "C12", "C13", "C14", "C15", "C17", "C18", "C19", "C20"}  # checks that are built, pass on the unchanged tree and are registered
 
@@ -193,7 +198,7 @@ def main():
                 "engine": "lean-model",
                 "level_claimed": {"category": "proof", "text": c["text"], "design_ref": c["ref"]},
                 "level_note": c["note"],
-                "technique": c["technique"],
+                "technique": c["technique"] + TECH_SUFFIX,
             }
         )
     na = [
